@@ -483,6 +483,9 @@ func (s *Store) Open() error {
 	db, err := badger.Open(opts)
 	if err != nil {
 		s.logger.Error(err)
+		// badger may return a database that is already cleaned up together with the error.
+		// using it (or a nil one) would hang or crash the start-up below
+		return err
 	}
 
 	// if new storage, create unique storage id file. BackupManager can use this id to ensure it does not overwrite
